@@ -77,47 +77,47 @@ type atClause struct {
 }
 
 type funcContract struct {
-	key        string // pkg.(*T).M
-	file       string
-	props      []string
-	mode       string
-	options    map[string]bool
-	inline     bool
-	summary    bool   // closure: calls use this contract instead of inlining the body
-	selfVar    string // closure: the captured variable that holds the closure itself (recursion)
-	wrap64     bool
+	key          string // pkg.(*T).M
+	file         string
+	props        []string
+	mode         string
+	options      map[string]bool
+	inline       bool
+	summary      bool   // closure: calls use this contract instead of inlining the body
+	selfVar      string // closure: the captured variable that holds the closure itself (recursion)
+	wrap64       bool
 	localAnchors map[string]localAnchor // name -> (type, ordinal among named locals of that type): survives renames
-	pure       bool
-	trusted    bool // extern: contract is assumed, body never verified
-	requires   []*clause
-	ensures    []*clause
-	assumed    []*clause // postconditions assumed at call sites but not checked on the body (listed as assumptions)
-	modifies   []*clause
-	decreases  *clause
-	loops      []*loopContract
-	implements string
-	params     []string // for extern: parameter names in order (incl. receiver first if any)
-	results    []string
-	ats        []*atClause
-	fresh      bool // result slice is freshly allocated by the callee
-	freshExprs []*clause // post-state expressions (slices) that the callee allocated
-	reallocs   []*clause // slices whose backing array after the call is the old one or a freshly allocated one
-	nofail     bool
-	dispatch   map[string]string // interface type name -> concrete receiver type text (devirtualisation, justified by a requires clause)
+	pure         bool
+	trusted      bool // extern: contract is assumed, body never verified
+	requires     []*clause
+	ensures      []*clause
+	assumed      []*clause // postconditions assumed at call sites but not checked on the body (listed as assumptions)
+	modifies     []*clause
+	decreases    *clause
+	loops        []*loopContract
+	implements   string
+	params       []string // for extern: parameter names in order (incl. receiver first if any)
+	results      []string
+	ats          []*atClause
+	fresh        bool      // result slice is freshly allocated by the callee
+	freshExprs   []*clause // post-state expressions (slices) that the callee allocated
+	reallocs     []*clause // slices whose backing array after the call is the old one or a freshly allocated one
+	nofail       bool
+	dispatch     map[string]string // interface type name -> concrete receiver type text (devirtualisation, justified by a requires clause)
 }
 
 type specFunc struct {
-	name    string
-	params  []binder
-	ret     string
-	body    Expr // nil => uninterpreted
-	model   bool // abstract-state observer
-	seq     bool // uninterpreted function of the contents of its slice arguments
-	opaque  bool // uninterpreted over the heap pieces named by reads
-	reads   []Expr
-	impls   []*specFunc
-	pkg     string
-	line    string
+	name   string
+	params []binder
+	ret    string
+	body   Expr // nil => uninterpreted
+	model  bool // abstract-state observer
+	seq    bool // uninterpreted function of the contents of its slice arguments
+	opaque bool // uninterpreted over the heap pieces named by reads
+	reads  []Expr
+	impls  []*specFunc
+	pkg    string
+	line   string
 }
 
 type axiomDecl struct {
@@ -149,11 +149,11 @@ type literalCheck struct {
 
 type specDB struct {
 	literals []literalCheck
-	funcs  map[string]*funcContract
-	specs  map[string]*specFunc
-	axioms []*axiomDecl
-	lemmas []*lemmaDecl
-	order  []string
+	funcs    map[string]*funcContract
+	specs    map[string]*specFunc
+	axioms   []*axiomDecl
+	lemmas   []*lemmaDecl
+	order    []string
 }
 
 func newSpecDB() *specDB {
@@ -384,7 +384,7 @@ func (db *specDB) loadSpecFile(path string, pkgName string, isGo bool) error {
 				return err
 			}
 			at := strings.TrimSpace(rest[j+4:])
-			nth := 1
+			nth := 0 // 0: every statement with that text; #k: only the k-th one in source order
 			if k := strings.LastIndex(at, "#"); k > 0 && k > strings.LastIndex(at, "\"") {
 				nth, _ = strconv.Atoi(strings.TrimSpace(at[k+1:]))
 				at = strings.TrimSpace(at[:k])
